@@ -262,50 +262,54 @@ Definition val_cn_struct (attrs : list attr) (kids : list xml) : list rule :=
       end
     else [R_MATH_CN_FORMAT].
 
-(** [pk]: the MathML children of the parent; [idx]: position of the node among them *)
+(** the branch of the if/else-if chain for an element named [n]: [pk] the MathML children of the parent, [idx] the
+    position of the node among them, [kids] its own children, [sub] the issues of the recursion over its own MathML
+    children (only apply / piecewise / piece / otherwise recurse) *)
+Definition val_node (pk : list xml) (idx : nat) (n : string) (attrs : list attr) (kids : list xml) (sub : list rule) : list rule :=
+  let mk := mkids kids in
+  let cnt := length pk in
+  match vclass_of n with
+  | VApply => chk (1 <=? length mk) R_MATH_MATHML sub
+  | VTwoSiblingsFirst => mm (cnt =? 3) (is_nth_sibling pk idx 0 [])
+  | VAtLeastTwoSiblingsFirst => mm (3 <=? cnt) (is_nth_sibling pk idx 0 [])
+  | VOneSiblingFirst => mm (cnt =? 2) (is_nth_sibling pk idx 0 [])
+  | VAtLeastOneSiblingFirst => mm (2 <=? cnt) (is_nth_sibling pk idx 0 [])
+  | VOneOrTwoSiblingsFirst => mm ((cnt =? 2) || (cnt =? 3)) (is_nth_sibling pk idx 0 [])
+  | VRoot =>
+      mm ((cnt =? 2) || (cnt =? 3))
+         (is_nth_sibling pk idx 0 (if cnt =? 3 then first_sibling_named pk idx "degree" [] else []))
+  | VLog =>
+      mm ((cnt =? 2) || (cnt =? 3))
+         (is_nth_sibling pk idx 0 (if cnt =? 3 then first_sibling_named pk idx "logbase" [] else []))
+  | VNoRule => []
+  | VDiff => mm (cnt =? 3) (is_nth_sibling pk idx 0 (first_sibling_named pk idx "bvar" []))
+  | VPiecewise => sub
+  | VPiece => mm (length mk =? 2) sub
+  | VOtherwise => mm (length mk =? 1) sub
+  | VCi => val_ci_struct kids
+  | VCn => val_cn_struct attrs kids
+  | VDegree =>
+      if cnt =? 2 then is_nth_sibling pk idx 1 (mm (length mk =? 1) [])
+      else if cnt =? 3 then first_sibling_named pk idx "root" (is_nth_sibling pk idx 1 (mm (length mk =? 1) []))
+      else [R_MATH_MATHML]
+  | VLogbase =>
+      mm (cnt =? 3) (first_sibling_named pk idx "log" (is_nth_sibling pk idx 1 (mm (length mk =? 1) [])))
+  | VBvar =>
+      mm (cnt =? 3) (first_sibling_named pk idx "diff"
+                       (is_nth_sibling pk idx 1 (mm ((length mk =? 1) || (length mk =? 2)) [])))
+  | VOther => []
+  end.
+
 Fixpoint val_struct (pk : list xml) (idx : nat) (x : xml) {struct x} : list rule :=
   match x with
   | Elem ns n attrs kids =>
       if negb (String.eqb ns MATHML_NS) then [] else
-      let mk := mkids kids in
-      let cnt := length pk in
-      (* recursion over the node's own MathML children, in order *)
-      let sub := (fix go (ks : list xml) (i : nat) {struct ks} : list rule :=
-                    match ks with
-                    | [] => []
-                    | k :: r => if is_mathml k then val_struct mk i k ++ go r (S i) else go r i
-                    end) kids 0 in
-      match vclass_of n with
-      | VApply => chk (1 <=? length mk) R_MATH_MATHML sub
-      | VTwoSiblingsFirst => mm (cnt =? 3) (is_nth_sibling pk idx 0 [])
-      | VAtLeastTwoSiblingsFirst => mm (3 <=? cnt) (is_nth_sibling pk idx 0 [])
-      | VOneSiblingFirst => mm (cnt =? 2) (is_nth_sibling pk idx 0 [])
-      | VAtLeastOneSiblingFirst => mm (2 <=? cnt) (is_nth_sibling pk idx 0 [])
-      | VOneOrTwoSiblingsFirst => mm ((cnt =? 2) || (cnt =? 3)) (is_nth_sibling pk idx 0 [])
-      | VRoot =>
-          mm ((cnt =? 2) || (cnt =? 3))
-             (is_nth_sibling pk idx 0 (if cnt =? 3 then first_sibling_named pk idx "degree" [] else []))
-      | VLog =>
-          mm ((cnt =? 2) || (cnt =? 3))
-             (is_nth_sibling pk idx 0 (if cnt =? 3 then first_sibling_named pk idx "logbase" [] else []))
-      | VNoRule => []
-      | VDiff => mm (cnt =? 3) (is_nth_sibling pk idx 0 (first_sibling_named pk idx "bvar" []))
-      | VPiecewise => sub
-      | VPiece => mm (length mk =? 2) sub
-      | VOtherwise => mm (length mk =? 1) sub
-      | VCi => val_ci_struct kids
-      | VCn => val_cn_struct attrs kids
-      | VDegree =>
-          if cnt =? 2 then is_nth_sibling pk idx 1 (mm (length mk =? 1) [])
-          else if cnt =? 3 then first_sibling_named pk idx "root" (is_nth_sibling pk idx 1 (mm (length mk =? 1) []))
-          else [R_MATH_MATHML]
-      | VLogbase =>
-          mm (cnt =? 3) (first_sibling_named pk idx "log" (is_nth_sibling pk idx 1 (mm (length mk =? 1) [])))
-      | VBvar =>
-          mm (cnt =? 3) (first_sibling_named pk idx "diff"
-                           (is_nth_sibling pk idx 1 (mm ((length mk =? 1) || (length mk =? 2)) [])))
-      | VOther => []
-      end
+      val_node pk idx n attrs kids
+        ((fix go (ks : list xml) (i : nat) {struct ks} : list rule :=
+            match ks with
+            | [] => []
+            | k :: r => if is_mathml k then val_struct (mkids kids) i k ++ go r (S i) else go r i
+            end) kids 0)
   | _ => []
   end.
 
@@ -338,14 +342,25 @@ Inductive site :=
 | S_CiNoVariable       (* component->variable(name) == nullptr, used by internalVariable()/variable->units() *)
 | S_CnNoChild          (* <cn/>: node->firstChild()->convertToStrippedString() *)
 | S_CnSepChain         (* e-notation: node->firstChild()->next()->next()->convertToStrippedString() *)
-| S_ExprRootCi.        (* analyseComponent: not an equality -> expression(ast) -> Generator: ast->parent()->type() *)
+| S_ExprNotPrintable   (* analyseComponent: not an equality -> expression(ast) -> Generator::generateCode reads a missing
+                          operand (or ast->parent() of a root CI): the process dies while wording the issue *)
+| S_EqnNotPrintable    (* an equality whose AST lacks an operand generateCode reads: dies as soon as a later stage prints
+                          it (units issue text, code generation) *)
+| S_DiffNotCi.         (* AnalyserInternalEquation::variableOnLhsRhs: astChild->rightChild()->variable()->name() for a DIFF
+                          on either side of the equality whose operand is not a ci *)
 
 Definition site_name (s : site) : string :=
   match s with
   | S_ChildNodeOfEmpty => "child-of-empty" | S_NodeNull => "missing-child" | S_CiNoChild => "ci-empty"
   | S_CiNoVariable => "ci-unknown-variable" | S_CnNoChild => "cn-empty" | S_CnSepChain => "cn-sep-chain"
-  | S_ExprRootCi => "bare-ci-equation"
+  | S_ExprNotPrintable => "expression-unprintable" | S_EqnNotPrintable => "equation-unprintable"
+  | S_DiffNotCi => "diff-of-non-ci"
   end.
+
+(** does the site always kill the process (inside analyseNode / analyseComponent), or only when a later stage reads
+    the malformed AST? *)
+Definition site_certain (s : site) : bool :=
+  match s with S_EqnNotPrintable | S_DiffNotCi => false | _ => true end.
 
 Inductive res (A : Type) := Ok (a : A) | Crash (s : site).
 Arguments Ok {A} a.
@@ -422,98 +437,156 @@ Definition next (c : option (list xml)) : option (list xml) :=
   match c with Some (_ :: (n :: r)) => Some (n :: r) | _ => None end.
 Definition cur (c : option (list xml)) : option xml := match c with Some (x :: _) => Some x | _ => None end.
 
-(** analyseNode.  [parent]: the parent element; [gp_is_math]: node->parent()->parent()->isMathmlElement("math");
-    [vars]: the component's variable names; [into]: the AST slot handed in (nullptr = None). *)
-Fixpoint ana_node (vars : list string) (parent : xml) (gp_is_math : bool) (x : xml) (into : option ast) {struct x} : res ast :=
-  let a := get into in
-  match x with
-  | Elem ns n attrs kids =>
-      if negb (String.eqb ns MATHML_NS) then Ok (populate a NAN) else
-      let ks : list kont :=
-        (fix go (l : list xml) : list kont :=
-           match l with
-           | [] => []
-           | k :: r => if is_mathml k then (fun slot => ana_node vars x (is_mathml_el "math" parent) k slot) :: go r
-                       else go r
-           end) kids in
-      let cnt := length ks in
-      if String.eqb n "apply" then
-        a0 <- ana_child kids ks 0 (Some a) ;;
-        l <- ana_child kids ks 1 (ast_left a0) ;;
-        let a1 := set_left a0 l in
-        if 3 <=? cnt then
-          rc <- ana_child kids ks (cnt - 1) None ;;
-          rc' <- apply_chain kids ks (cnt - 3) rc ;;
-          Ok (set_right a1 rc')
-        else Ok a1
-      else if String.eqb n "eq" then
-        if gp_is_math then Ok a else Ok (populate a EQ)
-      else if String.eqb n "piecewise" then
-        let a0 := populate a PIECEWISE in
-        l <- ana_child kids ks 0 (ast_left a0) ;;
-        let a1 := set_left a0 l in
-        if 2 <=? cnt then
-          rc <- ana_child kids ks (cnt - 1) None ;;
-          rc' <- piecewise_chain kids ks (cnt - 2) rc ;;
-          Ok (set_right a1 rc')
-        else Ok a1
-      else if String.eqb n "piece" then
-        let a0 := populate a PIECE in
-        l <- ana_child kids ks 0 (ast_left a0) ;;
-        r <- ana_child kids ks 1 (ast_right a0) ;;
-        Ok (set_right (set_left a0 l) r)
-      else if String.eqb n "otherwise" then
-        let a0 := populate a OTHERWISE in
-        l <- ana_child kids ks 0 (ast_left a0) ;; Ok (set_left a0 l)
-      else if String.eqb n "ci" then
-        match cur (first_child kids) with
-        | None => Crash S_CiNoChild
-        | Some c =>
-            let name := stripped c in
-            if in_list name vars then Ok (populate_var a CI name) else Crash S_CiNoVariable
-        end
-      else if String.eqb n "cn" then
-        if cnt =? 1 then
-          let c0 := first_child kids in
-          match cur c0, cur (next c0), cur (next (next c0)) with
-          | Some f, Some _, Some e => Ok (populate_value a CN (stripped f +++ "e" +++ stripped e))
-          | _, _, _ => Crash S_CnSepChain
-          end
-        else
-          match cur (first_child kids) with
-          | None => Crash S_CnNoChild
-          | Some c => Ok (populate_value a CN (stripped c))
-          end
-      else if String.eqb n "degree" then
-        let a0 := populate a DEGREE in
-        l <- ana_child kids ks 0 (ast_left a0) ;; Ok (set_left a0 l)
-      else if String.eqb n "logbase" then
-        let a0 := populate a LOGBASE in
-        l <- ana_child kids ks 0 (ast_left a0) ;; Ok (set_left a0 l)
-      else if String.eqb n "bvar" then
-        let a0 := populate a BVAR in
-        l <- ana_child kids ks 0 (ast_left a0) ;;
-        let a1 := set_left a0 l in
-        match nth_error ks 1 with      (* rightNode = mathmlChildNode(node, 1); if (rightNode != nullptr) ... *)
-        | None => Ok a1
-        | Some k => r <- k (ast_right a1) ;; Ok (set_right a1 r)
-        end
-      else
-        match lookup_simple n simple_elements with
-        | Some t => Ok (populate a t)
-        | None => Ok (populate a NAN)
-        end
-  | _ => Ok (populate a NAN)   (* not reachable: only MathML elements are handed to analyseNode *)
+(** the branches of analyseNode for a MathML element named [n] with raw children [kids], whose MathML children are
+    analysed by the continuations [ks]; [a] is the AST slot after "if (ast == nullptr) ast.reset(...)";
+    [gp_is_math]: node->parent()->parent()->isMathmlElement("math"); [vars]: the component's variable names *)
+Definition ana_body (vars : list string) (gp_is_math : bool) (n : string) (kids : list xml) (ks : list kont) (a : ast) : res ast :=
+  let cnt := length ks in
+  if String.eqb n "apply" then
+    a0 <- ana_child kids ks 0 (Some a) ;;
+    l <- ana_child kids ks 1 (ast_left a0) ;;
+    let a1 := set_left a0 l in
+    if 3 <=? cnt then
+      rc <- ana_child kids ks (cnt - 1) None ;;
+      rc' <- apply_chain kids ks (cnt - 3) rc ;;
+      Ok (set_right a1 rc')
+    else Ok a1
+  else if String.eqb n "eq" then
+    if gp_is_math then Ok a else Ok (populate a EQ)
+  else if String.eqb n "piecewise" then
+    let a0 := populate a PIECEWISE in
+    l <- ana_child kids ks 0 (ast_left a0) ;;
+    let a1 := set_left a0 l in
+    if 2 <=? cnt then
+      rc <- ana_child kids ks (cnt - 1) None ;;
+      rc' <- piecewise_chain kids ks (cnt - 2) rc ;;
+      Ok (set_right a1 rc')
+    else Ok a1
+  else if String.eqb n "piece" then
+    let a0 := populate a PIECE in
+    l <- ana_child kids ks 0 (ast_left a0) ;;
+    r <- ana_child kids ks 1 (ast_right a0) ;;
+    Ok (set_right (set_left a0 l) r)
+  else if String.eqb n "otherwise" then
+    let a0 := populate a OTHERWISE in
+    l <- ana_child kids ks 0 (ast_left a0) ;; Ok (set_left a0 l)
+  else if String.eqb n "ci" then
+    match cur (first_child kids) with
+    | None => Crash S_CiNoChild
+    | Some c =>
+        let name := stripped c in
+        if in_list name vars then Ok (populate_var a CI name) else Crash S_CiNoVariable
+    end
+  else if String.eqb n "cn" then
+    if cnt =? 1 then
+      let c0 := first_child kids in
+      match cur c0, cur (next c0), cur (next (next c0)) with
+      | Some f, Some _, Some e => Ok (populate_value a CN (stripped f +++ "e" +++ stripped e))
+      | _, _, _ => Crash S_CnSepChain
+      end
+    else
+      match cur (first_child kids) with
+      | None => Crash S_CnNoChild
+      | Some c => Ok (populate_value a CN (stripped c))
+      end
+  else if String.eqb n "degree" then
+    let a0 := populate a DEGREE in
+    l <- ana_child kids ks 0 (ast_left a0) ;; Ok (set_left a0 l)
+  else if String.eqb n "logbase" then
+    let a0 := populate a LOGBASE in
+    l <- ana_child kids ks 0 (ast_left a0) ;; Ok (set_left a0 l)
+  else if String.eqb n "bvar" then
+    let a0 := populate a BVAR in
+    l <- ana_child kids ks 0 (ast_left a0) ;;
+    let a1 := set_left a0 l in
+    match nth_error ks 1 with      (* rightNode = mathmlChildNode(node, 1); if (rightNode != nullptr) ... *)
+    | None => Ok a1
+    | Some k => r <- k (ast_right a1) ;; Ok (set_right a1 r)
+    end
+  else
+    match lookup_simple n simple_elements with
+    | Some t => Ok (populate a t)
+    | None => Ok (populate a NAN)      (* "we have checked for everything, so ... we have a NaN" *)
+    end.
+
+(** the continuations of the MathML children of a node (the nested fix inside [ana_node] computes exactly this list;
+    MathProofs.ana_node_unfold) *)
+Fixpoint konts (f : xml -> kont) (l : list xml) : list kont :=
+  match l with
+  | [] => []
+  | k :: r => if is_mathml k then f k :: konts f r else konts f r
   end.
 
-(** analyseComponent, one child of <math>: analyseNode into a fresh (EQUALITY) AST; when the result is not an
-    equality an issue is raised whose text is built by expression(ast) -> Generator::equationCode, and the
-    generator reads ast->parent()->type() for a CI node: null for the root. *)
+(** analyseNode.  [parent]: the parent element; [into]: the AST slot handed in (nullptr = None). *)
+Fixpoint ana_node (vars : list string) (parent : xml) (gp_is_math : bool) (x : xml) (into : option ast) {struct x} : res ast :=
+  match x with
+  | Elem ns n attrs kids =>
+      if negb (String.eqb ns MATHML_NS) then Ok (populate (get into) NAN) else
+      ana_body vars gp_is_math n kids
+        ((fix go (l : list xml) : list kont :=
+            match l with
+            | [] => []
+            | k :: r => if is_mathml k then (fun slot => ana_node vars x (is_mathml_el "math" parent) k slot) :: go r
+                        else go r
+            end) kids)
+        (get into)
+  | _ => Ok (populate (get into) NAN)   (* not reachable: only MathML elements are handed to analyseNode *)
+  end.
+
+(** What Generator::GeneratorImpl::generateCode (generator.cpp) reads of an AST without testing for null: the operands
+    each node type is printed with, and ast->parent() for a CI.  Transcribed from the switch of generateCode,
+    generateOperatorCode, generateOne/TwoParameterFunctionCode, generateMinusUnaryCode (mModel == nullptr, as in
+    Analyser::expression; the profile flags only choose between forms that read the same operands).
+    Approximation: for ROOT with a degree the shortcut "degree prints as 2.0 -> sqrt" is ignored, so the degree
+    operand is always required to have a left child (exact whenever the first operand is a <degree> element). *)
+Inductive gclass := GBinary | GUnary | GOneOrTwo | GRootLike | GCi | GLeaf.
+Definition gclass_of (t : ty) : gclass :=
+  match t with
+  | EQUALITY | EQ | NEQ | LT | LEQ | GT | GEQ | AND | OR | XOR | TIMES | DIVIDE | POWER | MIN | MAX | REM | DIFF | PIECE => GBinary
+  | PLUS | MINUS | LOG | PIECEWISE => GOneOrTwo
+  | ROOT => GRootLike
+  | CI => GCi
+  | CN | TRUE | FALSE | E | PI | INF | NAN => GLeaf
+  | _ => GUnary   (* NOT ABS EXP LN CEILING FLOOR, the trigonometric operators, OTHERWISE DEGREE LOGBASE BVAR *)
+  end.
+Fixpoint printable (has_parent : bool) (a : ast) {struct a} : bool :=
+  match a with
+  | Ast t _ _ l r =>
+      let pl := match l with Some c => printable true c | None => false end in
+      let pr := match r with Some c => printable true c | None => false end in
+      match gclass_of t with
+      | GBinary => pl && pr
+      | GUnary => pl
+      | GOneOrTwo => match r with Some _ => pl && pr | None => pl end
+      | GRootLike =>
+          match r with
+          | Some _ => pl && pr && match l with Some (Ast _ _ _ (Some _) _) => true | _ => false end
+          | None => pl
+          end
+      | GCi => has_parent
+      | GLeaf => true
+      end
+  end.
+
+(* analyser.cpp: AnalyserInternalEquation::variableOnLhsRhs on one side of the equality *)
+Definition side_ok (c : option ast) : bool :=
+  match c with
+  | Some (Ast DIFF _ _ _ (Some (Ast CI _ (Some _) _ _))) => true
+  | Some (Ast DIFF _ _ _ _) => false
+  | _ => true
+  end.
+
+(** analyseComponent, one child of <math>: analyseNode into a fresh (EQUALITY) AST.  When the result is not an
+    equality an issue is raised whose text is built by expression(ast) -> Generator::equationCode(ast), which prints
+    the whole AST.  Equalities are printed later (units issues, code generation) and inspected by
+    AnalyserInternalEquation::check -> variableOnLhsOrRhs. *)
 Definition ana_equation (vars : list string) (root : xml) (x : xml) : res ast :=
   a <- ana_node vars root false x (Some ast_new) ;;
   match ast_ty a with
-  | CI => Crash S_ExprRootCi
-  | _ => Ok a
+  | EQUALITY =>
+      if negb (printable false a) then Crash S_EqnNotPrintable
+      else if side_ok (ast_left a) && side_ok (ast_right a) then Ok a else Crash S_DiffNotCi
+  | _ => if printable false a then Ok a else Crash S_ExprNotPrintable
   end.
 
 Fixpoint ana_math_kids (vars : list string) (root : xml) (ks : list xml) : res (list ast) :=
@@ -536,6 +609,94 @@ Definition ana_node_opt (vars : list string) (root : xml) : option (list ast) :=
   match ana_math_env vars root with Ok l => Some l | Crash _ => None end.
 (** [ana_node] of the property text: the analyser's consumption of one <math> document *)
 Definition ana (root : xml) : option (list ast) := ana_node_opt std_vars root.
+
+(* ------------------------------------------------------------------------------------------------ power exponents *)
+
+(** std::stod (A-libc): invalid_argument iff strtod converts nothing; out_of_range on ERANGE.  The range side is only
+    decided where it is beyond doubt: |v| >= 1e309 overflows, 0 < |v| < 1e-324 underflows to zero. *)
+Inductive stod_result := StodValue | StodInvalidArgument | StodOutOfRange.
+Definition z_digits (m : Z) : Z := Z.of_nat (String.length (z_to_string (Z.abs m))).
+Definition surely_out_of_range (m e : Z) : bool :=
+  (negb (m =? 0)%Z && ((309 <? z_digits m + e)%Z || (z_digits m + e <? -323)%Z)).
+Definition stod (s : string) : stod_result :=
+  if negb (strtod_converts s) then StodInvalidArgument
+  else match real_parts s with
+       | Some (_, m, e) => if surely_out_of_range m e then StodOutOfRange else StodValue
+       | None => StodValue
+       end.
+
+(** validator.cpp: validateVariable — an initial_value is accepted when it is a CellML real or names a variable
+    of the same component; nothing checks that the real fits a double *)
+Definition initial_value_accepted (vars : list string) (s : string) : bool := is_real s || in_list s vars.
+
+(** analyser.cpp: AnalyserImpl::powerValue — evaluation of the exponent of a POWER / ROOT during the units analysis.
+    [avail] is powerData.mExponentValueAvailable (once false, stays false).  The arithmetic itself cannot fail;
+    what matters is which std::stod calls are reached.  [ivs]: variable name -> initial_value text. *)
+Inductive pv := PvDone (avail : bool) | PvThrow (r : stod_result).
+Fixpoint lookup_iv (n : string) (ivs : list (string * string)) : string :=
+  match ivs with [] => "" | (m, v) :: r => if String.eqb m n then v else lookup_iv n r end.
+Definition pv_unavailable_type (t : ty) : bool :=
+  match t with EQUALITY | DIFF | BVAR | PIECEWISE | PIECE | OTHERWISE => true | _ => false end.
+Fixpoint power_value_a (ivs : list (string * string)) (a : ast) (avail : bool) {struct a} : pv :=
+  match a with
+  | Ast t v x l r =>
+      match (match l with Some c => power_value_a ivs c avail | None => PvDone avail end) with
+      | PvThrow e => PvThrow e
+      | PvDone false => PvDone false
+      | PvDone true =>
+          match (match r with Some c => power_value_a ivs c true | None => PvDone true end) with
+          | PvThrow e => PvThrow e
+          | PvDone false => PvDone false
+          | PvDone true =>
+              match t with
+              | CI => let iv := lookup_iv (match x with Some n => n | None => "" end) ivs in
+                      if str_is_empty iv then PvDone false
+                      else match stod iv with StodValue => PvDone true | e => PvThrow e end
+              | CN => match stod v with StodValue => PvDone true | e => PvThrow e end
+              | _ => if pv_unavailable_type t then PvDone false else PvDone true
+              end
+          end
+      end
+  end.
+Definition power_value (ivs : list (string * string)) (a : option ast) (avail : bool) : pv :=
+  match a with None => PvDone avail (* if (ast == nullptr) return NAN *) | Some c => power_value_a ivs c avail end.
+
+(** analyseEquationUnits: every POWER node evaluates its right operand, every ROOT whose left child is a DEGREE
+    evaluates that — when the exponent is dimensionless (assumed here: the drivers use dimensionless variables; on
+    other documents the prediction is "may").  Post-order, left to right, as the units analysis walks the AST. *)
+Fixpoint units_pass_a (ivs : list (string * string)) (a : ast) {struct a} : option stod_result :=
+  match a with
+  | Ast t v x l r =>
+      match (match l with Some c => units_pass_a ivs c | None => None end) with
+      | Some e => Some e
+      | None =>
+          match (match r with Some c => units_pass_a ivs c | None => None end) with
+          | Some e => Some e
+          | None =>
+              match t with
+              | POWER => match power_value ivs r true with PvThrow e => Some e | _ => None end
+              | ROOT => match l with
+                        | Some (Ast DEGREE _ _ _ _) => match power_value ivs l true with PvThrow e => Some e | _ => None end
+                        | _ => None
+                        end
+              | _ => None
+              end
+          end
+      end
+  end.
+Fixpoint units_pass_all (ivs : list (string * string)) (eqs : list ast) : option stod_result :=
+  match eqs with
+  | [] => None
+  | a :: r => match units_pass_a ivs a with Some e => Some e | None => units_pass_all ivs r end
+  end.
+(** the uncaught exception Analyser::analyseModel would end with on this <math> document, if any *)
+Definition pow_math_env (vars : list string) (ivs : list (string * string)) (root : xml) : option stod_result :=
+  match ana_math_env vars root with
+  | Ok eqs => units_pass_all ivs eqs
+  | Crash _ => None
+  end.
+Definition stod_result_name (r : stod_result) : string :=
+  match r with StodValue => "value" | StodInvalidArgument => "invalid_argument" | StodOutOfRange => "out_of_range" end.
 
 (* ------------------------------------------------------------------------------------------------ builders *)
 
@@ -570,19 +731,48 @@ Definition leaf_alphabet : list xml :=
    m_leaf "min"; m_leaf "diff";
    m_leaf "apply"; m_leaf "piecewise"; m_leaf "piece"; m_leaf "otherwise"; m_leaf "degree"; m_leaf "logbase"; m_leaf "bvar"].
 
-Definition containers_over (maxlen : nat) (xs : list xml) : list xml :=
-  flat_map (fun ks => map (fun n => m_el n ks) ["apply"; "piecewise"; "piece"; "otherwise"; "degree"; "logbase"; "bvar"])
-           (dedup_nil (lists_upto maxlen xs)).
+(** the same, ordered by how much they matter for the deeper levels (a prefix is used there) *)
+Definition leaf_priority : list xml :=
+  [m_ci "x"; m_leaf "min"; m_cn "1"; m_leaf "plus"; m_leaf "piecewise"; m_leaf "eq"; m_leaf "diff"; m_leaf "root";
+   m_leaf "degree"; m_leaf "bvar"; m_leaf "not"; m_leaf "log"; m_leaf "logbase"; m_leaf "minus"; m_leaf "and";
+   m_el "ci" [Comment "c"; Text "y"]; m_leaf "apply"; m_leaf "piece"; m_leaf "otherwise"; m_leaf "sep"; m_leaf "true"].
 
-(** trees of depth <= d with at most [maxlen] children per container *)
-Fixpoint trees (d maxlen : nat) : list xml :=
+Definition container_tags : list string := ["apply"; "piecewise"; "piece"; "otherwise"; "degree"; "logbase"; "bvar"].
+
+Definition containers_over (maxlen : nat) (xs : list xml) : list xml :=
+  flat_map (fun ks => map (fun n => m_el n ks) container_tags) (dedup_nil (lists_upto maxlen xs)).
+
+(** trees of depth <= d over the given leaves with at most [maxlen] children per container *)
+Fixpoint trees_over (leaves : list xml) (d maxlen : nat) : list xml :=
   match d with
-  | O => leaf_alphabet
-  | S e => let sub := trees e maxlen in leaf_alphabet ++ containers_over maxlen sub
+  | O => leaves
+  | S e => leaves ++ containers_over maxlen (trees_over leaves e maxlen)
   end.
+Definition trees (d maxlen : nat) : list xml := trees_over leaf_alphabet d maxlen.
+
+(** all ways of putting [s] at one position of a list of leaves of length < maxlen *)
+Fixpoint insert_everywhere (s : xml) (l : list xml) : list (list xml) :=
+  match l with
+  | [] => [[s]]
+  | x :: r => (s :: l) :: map (fun t => x :: t) (insert_everywhere s r)
+  end.
+(** containers one of whose children is taken from [subs], the others from [leaves]: one level deeper than [subs] *)
+Definition grow (leaves subs : list xml) (maxlen : nat) : list xml :=
+  flat_map (fun l => flat_map (fun s => flat_map (fun ks => map (fun n => m_el n ks) container_tags) (insert_everywhere s l)) subs)
+           (dedup_nil (lists_upto (pred maxlen) leaves)).
 
 (** the two contexts in which a tree is placed: alone under <math>, and as right-hand side of x = ... *)
 Definition in_contexts (e : xml) : list xml := [m_math [e]; m_math [m_eqn (m_ci "x") e]].
+
+(** the enumerations run by the check: depth <= 1 exhaustively over the full alphabet; depth 2 and 3 with one deep
+    child per level over a prefix of [leaf_priority] *)
+Definition enum_d1 : list xml := flat_map in_contexts (trees 1 3).
+Definition enum_d2 (nleaves : nat) : list xml :=
+  let lv := firstn nleaves leaf_priority in
+  flat_map in_contexts (grow lv (containers_over 3 lv) 3).
+Definition enum_d3 (nleaves : nat) : list xml :=
+  let lv := firstn nleaves leaf_priority in
+  flat_map in_contexts (grow lv (grow lv (containers_over 2 lv) 3) 2).
 
 Definition is_gap (root : xml) : bool :=
   match val_math root, ana root with [], None => true | _, _ => false end.
